@@ -395,6 +395,8 @@ def run(chk, facts, tier, only=None):
         chk.include(c09, "C09.R1", "C08.R8", facts)     # the documented host limit (128-bit range) is decided exactly by the number kernels
         import c10
         chk.include(c10, "C10.R6", "C08.R9", facts)     # untyped variant decoding: accessor hint and accessor test read the same (expected) type
+        import c01
+        chk.include(c01, "C01.R10", "C08.R10", facts)   # the fast path accepts exactly the element types the element-wise path accepts (newtype structs around a primitive)
 
 
 def variant_paths_pat(m):
